@@ -1855,18 +1855,36 @@ def classify_param(name):
     return None
 
 
+def _calls_get_model(fn):
+    return any(isinstance(n, ast.Call) and self_attr(n.func, 'get_model') for n in ast.walk(fn))
+
+
+def _self_calls(fn):
+    return {n.func.attr for n in ast.walk(fn) if isinstance(n, ast.Call) and self_attr(n.func)}
+
+
 def getters_of(rt, rc):
-    """methods of a recogniser class (own or inherited below Recognizer) that call self.get_model"""
-    out = []
+    """model getters of a recogniser class (own or inherited below Recognizer): methods that call self.get_model, directly
+    or through one same-class helper.  A method that calls self.get_model and is itself called by a sibling is that
+    helper - it is inlined into its callers, not judged as a getter."""
+    methods = []
     for k in rt.idx.mro(rc):
         if k is rt.Recognizer:
             break
         for name, fn in k.methods.items():
-            if name.startswith('__'):
-                continue
-            if any(isinstance(n, ast.Call) and self_attr(n.func, 'get_model') for n in ast.walk(fn)):
-                if not any(g[1].name == name for g in out):
-                    out.append((k, fn))
+            if not name.startswith('__') and not any(m[1].name == name for m in methods):
+                methods.append((k, fn))
+    direct = {fn.name for k, fn in methods if _calls_get_model(fn)}
+    called = set()
+    for k, fn in methods:
+        called |= (_self_calls(fn) - {fn.name})
+    helpers = direct & called
+    out = []
+    for k, fn in methods:
+        if fn.name in helpers:
+            continue
+        if fn.name in direct or (_self_calls(fn) & helpers):
+            out.append((k, fn))
     return out
 
 
@@ -1894,8 +1912,16 @@ def getter_route(rt, k, fn, code):
     if sorted(kinds.values(), key=str) != sorted(['culture', 'fallback'], key=str):
         raise AnalysisError('%s:%d %s.%s: parameters %s are not (culture, fallback)' % (k.mod.rel, fn.lineno, k.name, fn.name, ps))
     env_args = {p: (code if kinds[p] == 'culture' else FALLBACK) for p in ps}
-    me = SelfVal(methods={'get_model': hook})
     what = '%s %s.%s' % (k.mod.rel, k.name, fn.name)
+    methods = {'get_model': hook}
+    inner = SelfVal(methods={'get_model': hook})          # inside a helper: no further helper level is modelled
+    for hname in sorted(_self_calls(fn) - {'get_model', fn.name}):
+        hk, hfn = rt.idx.find_method(k, hname)
+        if hfn is not None and hk is not rt.Recognizer and _calls_get_model(hfn) and not is_static(hfn):
+            # one level of same-class helper, inlined: parameters bound to the call's arguments, defaults evaluated
+            methods[hname] = (lambda args, kwargs, hk=hk, hfn=hfn:
+                              rt.interp.call(hk.mod, hfn, [inner] + list(args), kwargs, hk, '%s>%s' % (what, hfn.name)))
+    me = SelfVal(methods=methods)
     r = rt.interp.call(k.mod, fn, [me], env_args, k, what)
     if r is not token or len(calls) != 1:
         raise AnalysisError('%s: for culture %r the getter does not return the result of exactly one self.get_model call' % (what, code))
